@@ -252,6 +252,25 @@ def check(case):
                 k = int(np.argmax(err / tol))
                 case.fail('mismatch', 'sensitivity[%d]: got %r expected %r' % (k, sens[k], want_s[k]))
 
+    # results handed out earlier (scores collected over posterior draws, over individuals with the same sampling times)
+    # keep their values when the model is evaluated again at other inputs of the same length
+    if insup:
+        with case.clause('results_stable'):
+            r_pw = em.compute_pointwise_ll(sig_free.copy(), ybar.copy(), y.copy())
+            r_s = em.compute_sensitivities(sig_free.copy(), ybar.copy(), S.copy(), y.copy())
+            keep = [np.array(r_pw, dtype=float, copy=True), np.array(r_s[1], dtype=float, copy=True)]
+            y2 = y * 1.07 + (0.0 if kind in ('lognorm',) else 0.01)
+            em.compute_pointwise_ll(sig_free.copy(), ybar.copy(), y2.copy())
+            em.compute_sensitivities(sig_free.copy(), ybar.copy(), S.copy(), y2.copy())
+            em.compute_log_likelihood(sig_free.copy(), ybar.copy(), y2.copy())
+            case.true(np.array_equal(np.asarray(r_pw, dtype=float), keep[0], equal_nan=True),
+                      'the pointwise scores returned by an earlier call changed after a later call with other '
+                      'observations: %r -> %r' % (keep[0][:3].tolist(), np.asarray(r_pw, dtype=float)[:3].tolist()),
+                      kind='result_modified')
+            case.true(np.array_equal(np.asarray(r_s[1], dtype=float), keep[1], equal_nan=True),
+                      'the sensitivities returned by an earlier call changed after a later call with other observations',
+                      kind='result_modified')
+
     # the caller's arrays are inputs: the same float64 arrays passed again give the same results and keep their values
     with case.clause('inputs_unchanged'):
         a_sig, a_yb, a_S, a_y = sig_free.copy(), ybar.copy(), S.copy(), y.copy()
